@@ -172,7 +172,11 @@ func (r *RNG) Picture() []Call {
 		}
 		co := func() float32 { return float32(r.Intn(97)-48) / 2 }
 		cs = append(cs, Call{Name: "start", Adj: 0, F: fl(co(), co())})
-		for k := 2 + r.Intn(4); k > 0; k-- {
+		nseg := 2 + r.Intn(4)
+		if r.Chance(8) {
+			nseg = 0 // a path with no segment at all is still a drawn path: it is composited (as nothing) with the operator
+		}
+		for k := nseg; k > 0; k-- {
 			verb := append(append([]string{}, drawVerbs...), "A", "a")[r.Intn(len(drawVerbs)+2)]
 			c := Call{Name: verb, La: r.Bool(), Sw: r.Bool()}
 			for j := NArgs(verb); j > 0; j-- {
@@ -224,6 +228,13 @@ func monitorPixels(line string, cs []Call, r *RNG) (fails []Failure) {
 	ox, oy := r.Intn(20), r.Intn(20)
 	big := image.Rect(0, 0, w+ox+r.Intn(9), h+oy+r.Intn(9))
 	rect := image.Rect(ox, oy, ox+w, oy+h)
+	if r.Chance(40) {
+		// the larger image is itself a tile of something larger: its bounds do not start at (0,0) (round 5, C16-J: a Draw that
+		// compared the rectangle's corner with the image's SIZE instead of its far corner skipped such rectangles)
+		sh := image.Pt(r.Intn(400)-60, r.Intn(400)-60)
+		big, rect = big.Add(sh), rect.Add(sh)
+		ox, oy = rect.Min.X, rect.Min.Y
+	}
 	// same background under the rectangle in both renderings: start from zero in the rectangle
 	imgB, _, p := renderPixelsOffset(cs, alpha, big, rect, op)
 	if p != "" {
@@ -231,8 +242,8 @@ func monitorPixels(line string, cs []Call, r *RNG) (fails []Failure) {
 	}
 	ref := newImage(alpha, big)
 	fillSentinel(ref)
-	for y := 0; y < big.Dy(); y++ {
-		for x := 0; x < big.Dx(); x++ {
+	for y := big.Min.Y; y < big.Max.Y; y++ {
+		for x := big.Min.X; x < big.Max.X; x++ {
 			in := image.Pt(x, y).In(rect)
 			if in {
 				if pixAt(imgB, x, y) != pixAt(base, x-ox, y-oy) {
@@ -249,6 +260,15 @@ func monitorPixels(line string, cs []Call, r *RNG) (fails []Failure) {
 	if !alpha {
 		if f := partlyInside("C16", line, cs, w, h, r); len(f) > 0 {
 			return append(fails, f...)
+		}
+	}
+	// (d) with draw.Src what was in the rectangle before does not matter: the first drawn path REPLACES it, also when that
+	// path covers nothing (round 5, C16-I: an adapter that skipped compositing a path without segments, yet used up the
+	// one-shot operator)
+	if op == draw.Src && len(ops) > 0 {
+		onto, _, p := renderPixels(cs, alpha, own, own, op, true)
+		if p == "" && !sameImage(base, onto) {
+			fails = append(fails, Failure{"C16.src-replaces", line, fmt.Sprintf("%dx%d alpha=%v: drawn with draw.Src over a filled image and over an empty one, pixels differ at %v", w, h, alpha, firstPixelDiff(base, onto))})
 		}
 	}
 	// (b) power-of-two scaling
